@@ -238,6 +238,10 @@ func (b *c07Backend) serve(c net.Conn) {
 	if !ok {
 		return // connection opened and dropped without a request head: nothing was received
 	}
+	if exp := h.get("Expect"); len(exp) > 0 && strings.EqualFold(strings.TrimSpace(exp[0]), "100-continue") {
+		// a client that waits for the interim response before it sends its body
+		c.Write([]byte("HTTP/1.1 100 Continue\r\n\r\n"))
+	}
 	body, kind, declared, complete := c07ReadBody(br, &h, false, 0)
 	b.mu.Lock()
 	b.seen = append(b.seen, c07Seen{Line: h.Line, Headers: h.Headers, Body: body, Kind: kind, Declared: declared, Complete: complete})
